@@ -1,8 +1,11 @@
 PROP = {"engines": [("list", "default", 2000), ("slist", "default", 1500), ("array", "default", 2500), ("deque", "default", 2500), ("pqueue", "default", 1000), ("hashtable", "default", 2000), ("tst", "default", 1000),
-                    ("treetable", "default", 1000), ("rbuf", "default", 400), ("dpool", "default", 600)],
+                    ("treetable", "default", 1000), ("rbuf", "default", 400), ("dpool", "default", 600),
+                    ("array", "pool-static", 1200), ("array", "pool-dynamic", 1200), ("deque", "pool-static", 1200), ("list", "pool-dynamic", 1000), ("slist", "pool-static", 800),
+                    ("hashtable", "pool-dynamic", 1000), ("treetable", "pool-static", 800), ("tst", "pool-dynamic", 800), ("pqueue", "pool-static", 600), ("rbuf", "pool-dynamic", 300)],
         "level_text": "Coq theorems per engine: every block an operation (or a derived-container builder) adds to the ledger carries the container's own allocator family, and since no step "
                       "faults every release went through that family too. The model's tags transcribe which identifier the C text calls, so this property is only as strong as its tie: "
                       "every trace runs with a counting custom triple while the library's malloc/calloc/free are macro-redirected to a separate ledger; the per-family live counts are "
                       "compared after every operation, and a block released through the wrong family aborts the harness.",
-        "assumptions": ["'a container on a sufficiently large pool behaves like on malloc' follows from: containers consult the allocator only through grant/refuse answers (model structure) and "
-                        "the pools grant every request that fits (C12_malloc, C13_malloc); it is not separately traced on real pool triples in the quick tier"]}
+        "assumptions": ["'a container on a sufficiently large pool behaves like on malloc': in the model a container consults the allocator only through grant/refuse answers and the pools grant every "
+                        "request that fits (C12_malloc, C13_malloc); in the correspondence, samples of every engine's scope are replayed with the configured family carved out of a real "
+                        "CC_StaticPool (48 MB) / expandable CC_DynamicPool (VF_POOL=static|dynamic in harness/common.h) and must give the same observations as the model"]}
